@@ -127,9 +127,20 @@ def run(res, tier):
         if f not in us.funcs:
             raise AnalysisError(f"anchor {f} missing in {SUP}")
 
+    # canonical views (static helpers analysed in place); the raw functions are only used for anchors
+    from .. import norm
+
+    class _View(dict):
+        def __missing__(self, k):
+            v = norm.canon(uf, k, nested=False, exclude=("mj_advance",))
+            if v is None:
+                raise AnalysisError(f"anchor {k} missing in {FWD}")
+            self[k] = v
+            return v
+    ufv = _View()
     # ------------------------------------------------------------------ R-ONCE
     res.rule("R-ONCE", "time advanced exactly once per step; integrators call mj_advance exactly once", floor=5)
-    ex = paths.Explorer(TimeWrites(), uf, uf.funcs["mj_advance"])
+    ex = paths.Explorer(TimeWrites(), uf, ufv["mj_advance"])
     ex.ctx.adv, ex.ctx.at_advance, ex.ctx.exits = [], set(), set()
     ex.run()
     counts = {s[0] for s in ex.ctx.exits}
@@ -137,7 +148,7 @@ def run(res, tier):
     if counts == {1} and incs == {"d->time += m->opt.timestep"}:
         res.ok("R-ONCE", "mj_advance:time", {"statement": sorted(incs)[0]})
     else:
-        res.bad("R-ONCE", "mj_advance:time", FWD, uf.funcs["mj_advance"].get("line"),
+        res.bad("R-ONCE", "mj_advance:time", FWD, ufv["mj_advance"].get("line"),
                 f"d->time is advanced {sorted(counts)} times on some path of mj_advance (statements {sorted(incs)}); expected exactly "
                 f"one `d->time += m->opt.timestep`")
     # no other function of the step closure advances time
@@ -153,13 +164,13 @@ def run(res, tier):
                     res.bad("R-ONCE", construct, g.funcs[k]["file"], e["line"],
                             f"{k[1]} writes d->time inside the step closure; only mj_advance (and RK4's stage bookkeeping, reset) may")
     for integ in ("mj_EulerSkip", "mj_implicitSkip", "mj_RungeKutta"):
-        ctx = paths.explore(CountCalls("mj_advance"), uf, uf.funcs[integ])
+        ctx = paths.explore(CountCalls("mj_advance"), uf, ufv[integ])
         if ctx.reports:
             res.bad("R-ONCE", f"{integ}:mj_advance", FWD, ctx.reports[0]["line"], ctx.reports[0]["msg"])
         else:
             res.ok("R-ONCE", f"{integ}:mj_advance", None)
     # RK4: value of d->time when mj_advance is called is the entry value
-    fn = uf.funcs["mj_RungeKutta"]
+    fn = ufv["mj_RungeKutta"]
     ex = paths.Explorer(TimeWrites(), uf, fn)
     ex.ctx.adv, ex.ctx.at_advance, ex.ctx.exits = [], set(), set()
     ex.run()
@@ -218,11 +229,35 @@ def run(res, tier):
             res.bad("R-CONST", name, FWD, A.get("line"), f"RK4 tableau violates `{name}`: value {got}")
     # C is computed as row sums in the code: find `C[i-1] += A[...]` pattern presence is implementation; instead require the
     # stage time to use the row sum: T = d->time + C*h where C accumulates A entries (a sum over j of A[..])
-    fn = uf.funcs["mj_RungeKutta"]
+    fn = ufv["mj_RungeKutta"]
+    vdefs = {}
+    for y in cir.walk(fn):
+        if y.get("k") == "VarDecl" and y.get("init"):
+            _i = [c for c in cir.kids(y) if c is not None and not c.get("k", "").endswith("Attr")]
+            if _i:
+                vdefs[y.get("n")] = _i[-1]
+
+    def derives(e, what, depth=0):
+        """the value of e is read from the global `what`, possibly through local pointer variables"""
+        if what in cir.text(e):
+            return True
+        if depth > 4:
+            return False
+        return any(v in vdefs and derives(vdefs[v], what, depth + 1) for v in cir.vars_in(e))
+    # stage times: stores whose value is d->time plus (something) * h; that something must be accumulated from the tableau A
+    coeff = set()
+    for n in cir.walk(fn):
+        if n.get("k") == "BinaryOperator" and n.get("op") == "=" and "d->time" in cir.text(cir.kids(n)[1]) and \
+                cir.text(cir.kids(n)[0]) != "d->time":
+            for y in cir.walk(cir.kids(n)[1]):
+                if y.get("k") == "ArraySubscriptExpr":
+                    coeff.add(cir.base_var(y))
     acc = [n for n in cir.walk(fn) if n.get("k") == "CompoundAssignOperator" and n.get("op") == "+=" and
-           cir.text(cir.kids(n)[0]).startswith("C[") and cir.text(cir.kids(n)[1]).startswith("A[")]
+           cir.base_var(cir.kids(n)[0]) in coeff and derives(cir.kids(n)[1], "RK4_A")]
+    if not coeff:
+        raise AnalysisError("mj_RungeKutta: stage-time computation (d->time + c*h) not found")
     if acc:
-        res.ok("R-CONST", "c = row sums of A", {"statement": cir.text(acc[0])})
+        res.ok("R-CONST", "c = row sums of A", {"statement": cir.text(acc[0]), "coefficients": sorted(coeff)})
     else:
         res.bad("R-CONST", "c = row sums of A", FWD, fn.get("line"), "stage times are not derived from the row sums of the tableau")
 
@@ -231,7 +266,7 @@ def run(res, tier):
     # of the stage derivatives: all derivative arguments of the mj_advance call come from the accumulator filled by the loop
     # that scales with the tableau weights B
     res.rule("R-RK-FINAL", "RK4's final mj_advance takes every derivative from the tableau-weighted accumulator", floor=3)
-    fn = uf.funcs["mj_RungeKutta"]
+    fn = ufv["mj_RungeKutta"]
     bvars = {x.get("n") for x in cir.walk(fn) if x.get("k") == "VarDecl" and x.get("init") and "RK4_B" in cir.text([c for c in cir.kids(x) if c][-1])}
     if not bvars:
         raise AnalysisError("mj_RungeKutta: no local bound to the RK4_B weights")
@@ -295,6 +330,30 @@ def run(res, tier):
                "mj_RungeKutta": "RK4 stage copies, restored before mj_advance",
                "_resetData": "reset (autoreset path of the check functions)",
                "mj_resetDataKeyframe": "reset to keyframe"}
+    _callers = {}
+    for k2 in g.funcs:
+        for c2 in g.callees(k2, indirect=False):
+            _callers.setdefault(c2, set()).add(k2)
+
+    def _owners(k, depth=0):
+        """non-static functions of the same file that a static helper works for (all transitive callers); empty if unknown"""
+        f_ = g.funcs[k]
+        if not f_["static"] or depth > 3:
+            return {k[1]}
+        cs = _callers.get(k, set())
+        if not cs:
+            return set()
+        out = set()
+        for c2 in cs:
+            if c2 == k:
+                continue
+            if g.funcs[c2]["file"] != f_["file"]:
+                return set()
+            o2 = _owners(c2, depth + 1) if g.funcs[c2]["static"] and c2[1] not in allowed else {c2[1]}
+            if not o2:
+                return set()
+            out |= o2
+        return out
     for k in sorted(step):
         hits = [e for e in g.funcs[k]["events"] if e["struct"] == "mjData" and e["field"] == "act" and
                 e["kind"] in ("assign", "elem", "addr", "pass", "alias")]
@@ -302,14 +361,30 @@ def run(res, tier):
             if e["kind"] == "alias":
                 continue  # a local non-const pointer; followed by the rule below only for mj_advance
             construct = f"{k[1]}:act"
+            owners = _owners(k)
             if k[1] in allowed:
                 res.ok("R-WHO-WRITES", construct, {"reason": allowed[k[1]]})
+            elif owners and all(o in allowed for o in owners):
+                res.ok("R-WHO-WRITES", construct, {"reason": "static helper of " + ", ".join(sorted(owners))})
             else:
                 res.bad("R-WHO-WRITES", construct, g.funcs[k]["file"], e["line"],
                         f"{k[1]} (step closure) writes d->act via {e['kind']}"
                         + (f" to {e.get('callee')}()" if e.get("callee") else "") + "; activations must only change through "
                         "mj_advance's clamping update")
-    adv = uf.funcs["mj_advance"]
+    adv = ufv["mj_advance"]
+    _ldefs = {}
+    for y in cir.walk(adv):
+        if y.get("k") == "VarDecl" and y.get("init"):
+            _i = [c for c in cir.kids(y) if c is not None and not c.get("k", "").endswith("Attr")]
+            if _i:
+                _ldefs[y.get("id")] = cir.text(_i[-1])
+    for _r in range(2):
+        for k_, v_ in list(_ldefs.items()):
+            for y in cir.walk(adv):
+                if y.get("k") == "VarDecl" and y.get("id") == k_:
+                    for z in cir.walk(y):
+                        if z.get("k") == "DeclRefExpr" and (z.get("ref") or {}).get("id") in _ldefs and z["ref"]["id"] != k_:
+                            _ldefs[k_] = v_ + " <- " + _ldefs[z["ref"]["id"]]
     nstores = 0
     for n in cir.walk(adv):
         is_store = (n.get("k") == "BinaryOperator" and n.get("op") == "=") or n.get("k") == "CompoundAssignOperator"
@@ -321,6 +396,11 @@ def run(res, tier):
         nstores += 1
         rhs = cir.strip(cir.kids(n)[1])
         rtxt = cir.text(rhs)
+        # values that flow through locals (e.g. the parameter copy of an inlined helper) count by their definition
+        for _round in range(3):
+            for y in cir.walk(rhs):
+                if y.get("k") == "DeclRefExpr" and (y.get("ref") or {}).get("id") in _ldefs:
+                    rtxt += " <- " + _ldefs[y["ref"]["id"]]
         if n.get("k") == "BinaryOperator" and cir.is_call(rhs) and cir.callee(rhs) == "mj_nextActivation":
             res.ok("R-WHO-WRITES", "mj_advance:store:nextActivation", {"stmt": cir.text(n)[:120]})
         elif n.get("k") == "CompoundAssignOperator" or "d->act[" in rtxt:
@@ -362,6 +442,8 @@ def run(res, tier):
         def ret(self, st, node, ctx):
             if not st[0] and st[1] is not True:
                 ctx.report(node, "return of an unclipped activation on a non-DCMOTOR path with actlimited set")
+    from .. import norm
+    na = norm.canon(us, "mj_nextActivation", nested=False)      # helper branches (e.g. a per-dyntype helper) analysed in place
     ctx = paths.explore(Clip(), us, na)
     if ctx.reports:
         res.bad("R-WHO-WRITES", "mj_nextActivation:actrange-clip", SUP, ctx.reports[0]["line"], ctx.reports[0]["msg"])
@@ -372,42 +454,35 @@ def run(res, tier):
     res.rule("R-EXHAUST", "joint-type and integrator dispatches are exhaustive", floor=4)
     jts = [n for n, _ in ctypeinfo.enum_values("mjtJoint")]
     for fname, quatfn in (("mj_integratePosInd", "mju_quatIntegrate"), ("mj_differentiatePos", "mju_subQuat")):
-        fn = us.funcs[fname]
-        sw = [n for n in cir.walk(fn) if n.get("k") == "SwitchStmt"]
-        if len(sw) != 1:
-            raise AnalysisError(f"{fname}: expected one switch")
-        labels = []
-        quat_cases = set()
-        cur = []
-
-        def visit(st):
-            if st is None:
-                return
-            if st.get("k") == "CaseStmt":
-                lab = cir.text(cir.kids(st)[0])
-                labels.append(lab)
-                cur.append(lab)
-                visit(cir.kids(st)[-1])
-                return
-            if st.get("k") == "DefaultStmt":
-                labels.append("<default>")
-                visit(cir.kids(st)[-1])
-                return
-            if st.get("k") == "BreakStmt":
-                cur.clear()
-                return
-            if any(cir.callee(c) == quatfn for c in cir.calls(st)):
-                quat_cases.update(cur)
-        for st in cir.kids(cir.kids(sw[0])[-1]):
-            visit(st)
-        missing = [j for j in jts if j not in labels and "<default>" not in labels]
+        # canonical view; the dispatch may be a switch or an if-chain, in the function or in a static helper: for every joint
+        # type there is an effect whose guards (on the joint type) admit it, and the quaternion types reach quatfn
+        fn = norm.canon(us, fname)
+        body = cir.body(fn)
+        subj = lambda t: "jnt_type" in t or "type" in t.lower()
+        handled, quat_cases = set(), set()
+        nsites = 0
+        for x in cir.walk(body):
+            k_ = x.get("k")
+            if not (cir.is_call(x) or (k_ == "BinaryOperator" and x.get("op") == "=") or k_ == "CompoundAssignOperator"):
+                continue
+            live, constrained = norm.enum_cases(norm.guards(body, x), jts, subj)
+            if not constrained:
+                continue
+            nsites += 1
+            handled |= live
+            if cir.is_call(x) and cir.callee(x) == quatfn:
+                quat_cases |= live
+        if not nsites:
+            raise AnalysisError(f"{fname}: no statement guarded by the joint type found")
+        missing = [j for j in jts if j not in handled]
+        line = fn.get("line")
         if missing:
-            res.bad("R-EXHAUST", f"{fname}:joint-types", SUP, sw[0].get("line"), f"{fname} has no case for {missing}")
+            res.bad("R-EXHAUST", f"{fname}:joint-types", SUP, line, f"{fname} has no case for {missing}")
         elif not {"mjJNT_FREE", "mjJNT_BALL"} <= quat_cases:
-            res.bad("R-EXHAUST", f"{fname}:joint-types", SUP, sw[0].get("line"),
+            res.bad("R-EXHAUST", f"{fname}:joint-types", SUP, line,
                     f"quaternion joints {sorted({'mjJNT_FREE', 'mjJNT_BALL'} - quat_cases)} do not reach {quatfn}")
         else:
-            res.ok("R-EXHAUST", f"{fname}:joint-types", {"cases": labels, "quaternion_cases": sorted(quat_cases)})
+            res.ok("R-EXHAUST", f"{fname}:joint-types", {"handled": sorted(handled), "quaternion_cases": sorted(quat_cases)})
     nq = us.funcs["mj_normalizeQuat"]
     refs = {x["ref"]["n"] for x in cir.walk(nq) if x.get("k") == "DeclRefExpr" and (x.get("ref") or {}).get("k") == "EnumConstantDecl"}
     if {"mjJNT_FREE", "mjJNT_BALL"} <= refs and any(cir.callee(c) == "mju_normalize4" for c in cir.calls(nq)):
@@ -415,24 +490,30 @@ def run(res, tier):
     else:
         res.bad("R-EXHAUST", "mj_normalizeQuat:joint-types", SUP, nq.get("line"), f"mj_normalizeQuat handles only {sorted(refs)}")
     ints = [n for n, _ in ctypeinfo.enum_values("mjtIntegrator")]
-    sw = [n for n in cir.walk(uf.funcs["mj_step"]) if n.get("k") == "SwitchStmt"]
-    labs = set()
-    default_fatal = False
-    for n in cir.walk(sw[0]) if sw else ():
-        if n.get("k") == "CaseStmt":
-            labs.add(cir.text(cir.kids(n)[0]))
-        if n.get("k") == "DefaultStmt":
-            errv = paths.error_msg_vars(uf.funcs["mj_step"])
-            default_fatal = any(paths.is_noreturn_call(c, errv) for c in cir.calls(n))
-    missing = [i for i in ints if i not in labs]
-    if not sw:
-        raise AnalysisError("mj_step: integrator switch not found")
-    if missing and not default_fatal:
-        res.bad("R-EXHAUST", "mj_step:integrators", FWD, sw[0].get("line"), f"no case for {missing} and the default does not raise an error")
-    elif missing:
-        res.bad("R-EXHAUST", "mj_step:integrators", FWD, sw[0].get("line"), f"integrators {missing} fall into the error default of mj_step")
+    # mj_step: every integrator reaches an integration routine (a call that is not the error handler) under guards on
+    # opt.integrator that admit it; switch or if-chain, here or in a static helper
+    fstep = norm.canon(uf, "mj_step")
+    sbody = cir.body(fstep)
+    errv = paths.error_msg_vars(fstep)
+    reach = {}
+    nsites = 0
+    for c in cir.calls(sbody):
+        live, constrained = norm.enum_cases(norm.guards(sbody, c), ints, lambda t: "integrator" in t)
+        if not constrained:
+            continue
+        nsites += 1
+        if paths.is_noreturn_call(c, errv) or cir.callee(c) in ("mju_message", "snprintf", "mju_warning"):
+            continue
+        for i_ in live:
+            reach.setdefault(i_, set()).add(cir.callee(c))
+    if not nsites:
+        raise AnalysisError("mj_step: integrator dispatch not found")
+    missing = [i for i in ints if i not in reach]
+    if missing:
+        res.bad("R-EXHAUST", "mj_step:integrators", FWD, fstep.get("line"),
+                f"integrators {missing} reach no integration routine in mj_step (no case, or only the error default)")
     else:
-        res.ok("R-EXHAUST", "mj_step:integrators", {"cases": sorted(labs)})
+        res.ok("R-EXHAUST", "mj_step:integrators", {"reach": {k_: sorted(str(x) for x in v) for k_, v in sorted(reach.items())}})
 
     res.explanation = (
         "Exactly-once rules on all paths (time increment, mj_advance per integrator, RK4 time restoration), exact rational "
